@@ -84,7 +84,19 @@ Section Transcript.
   Definition server_res_ok (c s : view) : bool :=
     client_res_ok c s
     && eqb (res_client_fin c (res_server_fin s)) (res_client_fin s (res_server_fin s)).
+
+  (* ---- which ClientHello the server NEGOTIATES from.  With hello verification there are two: the first,
+     cookie-less one is in no transcript (RFC 6347 4.2.1); the second is the head of [v_tr_cke]. *)
+  Definition server_neg_input (from_second : bool) (ch1_received : term) (s : view) : term :=
+    if from_second then hd ch1_received (v_tr_cke s) else ch1_received.
 End Transcript.
+
+(* THE SWITCH for defect A (repaired in /repo by 6f00c2b): flight0Parse took every extension-driven
+   decision (extended master secret, key-exchange group, server name, ALPN offer, signature_algorithms_cert)
+   from the FIRST ClientHello; ValidateHelloVerifyRequestResponse pins only the fields before the
+   extensions plus connection_id / use_srtp.  [true] = flight2Parse negotiates again from the second
+   ClientHello, the one the Finished messages cover. *)
+Definition server12_negotiates_from_second_hello : bool := true.
 
 Arguments mk_view {term}.
 Arguments v_tr_cke {term}.
